@@ -165,6 +165,21 @@ def run_all(seed, in_child=None):
                     what = next(k for k in before if before[k] != after[k])
                     problems.append({'pipeline': name, 'field': f, 'msg': f'{name}: {what} of {f!r} changed after pickling'})
                 results[key] = before
+                # pickling is an observation: a function that is pickled BEFORE its first use (fresh layer objects, nothing in RAM)
+                # behaves afterwards like one that never was
+                try:
+                    fresh = Builder(world, roots=roots).layer(desc)._compile(f)
+                    pickle.dumps(fresh)
+                    later = observe_fn(world, fresh, ids)
+                    if later != before:
+                        what = next(k for k in before if before[k] != later[k])
+                        bad = next((i for i in before[what] if before[what][i] != later[what].get(i)), None) if isinstance(before[what], dict) else None
+                        problems.append({'pipeline': name, 'field': f, 'kind': 'original-changed',
+                                         'msg': f'{name}: after pickle.dumps the ORIGINAL function of {f!r} differs in {what}'
+                                                + (f' at {bad!r}: {str(later[what].get(bad))[:80]}' if bad is not None else '')})
+                except Exception as e:
+                    problems.append({'pipeline': name, 'field': f, 'kind': 'original-changed',
+                                     'msg': f'{name}: using a function after it was pickled raised {exc_name(e)}'})
     finally:
         if not in_child:
             # the child runs before the scratch directory is removed (see run_check)
